@@ -1,6 +1,6 @@
 (** C07 – position and length bookkeeping.
     Transcribes (line numbers: /repo HEAD 8b11f76)
-      - AtomicPosition::{reset,inc,dec,set}        src/state.rs:592-608 (fetch_add / fetch_sub
+      - AtomicPosition::{reset,inc,dec,set}        src/state.rs:599-615 (fetch_add / fetch_sub
         SeqCst, store Release on the shared AtomicU64 `pos`, :541),
       - BarState::{unset_length,set_length,inc_length,dec_length}  src/state.rs:107-129
         (saturating_add / saturating_sub only when the length is Some),
